@@ -19,8 +19,9 @@ Reading used here (plain set bookkeeping over the script, no log, no Raft):
 * "cannot be removed" = the call fails (and `agree` demands the peer is still reported);
 * "before it reports itself ready" = the pinset read at the instant `Ready()` fired;
 * "stops itself" = `Done()` closed; "discards its consensus data" = the Raft data folder no longer holds the database;
-* "re-homed first" = in the calls `PeerRemove` made, every pin allocated to the peer and re-allocatable to the
-  others was logged again without it before `RmPeer` was called.
+* "re-homed first" = in the calls `PeerRemove` made, every pin that the removal leaves with fewer holders than
+  its minimum factor, and that the other members can take, was logged again without the peer before `RmPeer` was called;
+* the no-op clauses are asked of calls issued at remaining members (a removed peer that still runs may fail them).
 -/
 import ClusterVerif.Model.C17
 namespace CV.C17
@@ -49,10 +50,10 @@ def advance (s : SpecSt) : Op → SpecSt
   | .nonvoter _ j res => if okB res then { s with members := insertPeer j s.members } else s
   | .sync .. => s
   | .stop j => { s with running := erasePeer j s.running }
-  | .restart j => { s with running := insertPeer j s.running }
+  | .restart j => { s with running := insertPeer j s.running, departed := erasePeer j s.departed }
   | .clean j _ => { s with running := erasePeer j s.running }
   | .join j _ res _ =>
-    if okB res then { s with members := insertPeer j s.members, running := insertPeer j s.running } else s
+    if okB res then { s with members := insertPeer j s.members, running := insertPeer j s.running, departed := erasePeer j s.departed } else s
   | .peerRm _ p res calls =>
     let pinset' := calls.foldl (fun m c => match c with | .logPin q => PinMap.put q.stored m | _ => m) s.pinset
     if okB res then
@@ -75,22 +76,30 @@ def rehomedBefore (calls : List Call) (p : Nat) (cid : Nat) : Bool :=
     | .logPin q => q.cid == cid && !q.allocs.contains p
     | _ => false)
 
+/-- the entry is held by `p` and, without `p`, by fewer members than its minimum factor asks -/
+def needsRehome (members : List Nat) (p : Nat) (pin : Pin) : Bool :=
+  pin.allocs.contains p &&
+  decide (((pin.allocs.filter (fun a => a != p && members.contains a)).length : Int) < pin.opts.rmin)
+
 /-- re-allocating away from `p` is possible: enough other members for the minimum factor -/
 def canRehome (members : List Nat) (p : Nat) (pin : Pin) : Bool :=
-  decide (0 < pin.opts.rmin) && decide (pin.opts.rmin ≤ ((erasePeer p members).length : Int))
+  decide (pin.opts.rmin ≤ ((erasePeer p members).length : Int))
+
+/-- a running peer of the expected peerset -/
+def remains (s : SpecSt) (i : Nat) : Bool := s.running.contains i && s.members.contains i
 
 /-- clauses one step must meet, given what was expected before it -/
 def checkOp (repin : Bool) (s : SpecSt) : Op → List (String × Bool)
-  | .add _ j res => [("add_present_noop", !s.members.contains j || okB res)]
-  | .rm _ j res => [("rm_absent_noop", s.members.contains j || okB res),
+  | .add a j res => [("add_present_noop", !(remains s a && s.members.contains j) || okB res)]
+  | .rm a j res => [("rm_absent_noop", !(remains s a && !s.members.contains j) || okB res),
                     ("last_peer_kept", !(s.members == [j]) || !okB res)]
   | .ready _ _ _ _ pins => [("joiner_synced", canonMap pins == canonMap s.pinset)]
   | .join _ _ res pins => [("joiner_synced", !okB res || canonMap pins == canonMap s.pinset)]
-  | .peerRm _ p res calls =>
-    [("rm_absent_noop", s.members.contains p || okB res),
+  | .peerRm a p res calls =>
+    [("rm_absent_noop", !(remains s a && !s.members.contains p) || okB res),
      ("last_peer_kept", !(s.members == [p]) || !okB res),
      ("rehomed_first", !(repin && okB res) ||
-        s.pinset.all (fun pin => !(pin.allocs.contains p && canRehome s.members p pin) || rehomedBefore calls p pin.cid))]
+        s.pinset.all (fun pin => !(needsRehome s.members p pin && canRehome s.members p pin) || rehomedBefore calls p pin.cid))]
   | .leave j res => [("last_peer_kept", !(s.members == [j]) || !okB res)]
   | .clean j gone => [("removed_cleans", s.members.contains j || gone)]
   | _ => []
